@@ -56,9 +56,13 @@ def run(ctx: Ctx):
     exceptions(ctx)
     collator(ctx)
     accidental_fallback(ctx)
+    sort_key_exact(ctx)
     from .common import generic_lints
 
     generic_lints(ctx)
+    from .common import shim_leaves_transforms_alone
+
+    shim_leaves_transforms_alone(ctx)
     from .common import id_truthiness
 
     id_truthiness(ctx)
@@ -606,3 +610,35 @@ def accidental_fallback(ctx: Ctx):
         ctx.violated("fallback.accidental-valueerror", where, why, "the sort computation raises ValueError only for a reference that matches nothing", "the assemblers catch ValueError and silently return payload order: fixed elements and subtotal groups are then not placed as specified")
     if not hits:
         ctx.held("fallback.accidental-valueerror", f"{COL}::SortByValueCollator (and bases)", f"{n} methods: no construct that raises ValueError on empty input", "", "positive control: 2 of 2 recognised")
+
+
+QUANTISERS = ("round", "np.round", "np.around", "np.round_", "np.rint", "np.floor", "np.ceil", "np.trunc", "np.fix", "math.floor", "math.ceil", "math.trunc", "np.digitize", "np.float32", "np.float16")
+
+
+def sort_key_exact(ctx: Ctx):
+    """Elements are ordered by the value the public measure reports: the sort compares the values THEMSELVES.  A
+    quantised key (`round(value, 12)`, a cast to a narrower float, a floor) makes distinct values compare equal; such
+    "ties" are then broken by payload position and the order is no longer monotone in the measure (p-values of highly
+    significant cells differ by 1e-14)."""
+    ctl = ast.parse("def _sort_key(value):\n    return round(value, 12) if isinstance(value, float) else value\n")
+    if len([c for c in ast.walk(ctl) if isinstance(c, ast.Call) and u(c.func) in QUANTISERS]) != 1:
+        raise AnalysisError("sort-key.exact: the positive control is no longer recognised")
+    n, hits = 0, []
+    for short, keep in (("collator.py", lambda ci: "SortByValue" in ci.name), ("matrix/assembler.py", lambda ci: "Sort" in ci.name or ci.name == "_BaseOrderHelper"), ("stripe/assembler.py", lambda ci: "Sort" in ci.name)):
+        mod = ctx.repo.module(short)
+        for ci in mod.classes.values():
+            if not keep(ci):
+                continue
+            for m in ci.members.values():
+                n += 1
+                for c in ast.walk(m.node):
+                    if isinstance(c, ast.Call) and u(c.func) in QUANTISERS:
+                        hits.append((f"{short}::{ci.name}.{m.name}", u(c)[:100]))
+                    elif isinstance(c, ast.Call) and isinstance(c.func, ast.Attribute) and c.func.attr in ("round", "astype") and (c.func.attr == "round" or any("float32" in u(a) or "float16" in u(a) or "int" in u(a) for a in c.args)):
+                        hits.append((f"{short}::{ci.name}.{m.name}", u(c)[:100]))
+    ctx.count("sort-by-value members scanned for quantised keys", n)
+    ctx.require_min("sort-by-value members scanned for quantised keys", 30)
+    for where, text in hits:
+        ctx.violated("sort-key.exact", where, text, "the values are compared as they are", "distinct values closer than the quantum compare equal and are ordered by payload position instead of by value")
+    if not hits:
+        ctx.held("sort-key.exact", "sort-by-value collator and helpers", f"{n} members, no quantised sort key", "", "positive control recognised")
